@@ -2,7 +2,7 @@
    Property theorems only.  [the_table] is REGENERATED from the Go source on every check
    (Gen/GenesisTable.v); the finite theorems are by computation over it, the lifting lemmas are
    generic (Proofs/GenesisProofs.v).  The property is false for the (module, prefix) pairs listed in
-   [known_holes] (classes kf_C20 3..6, 8..11, 13..15); each class has a [_refuted] statement, and
+   [known_holes] (classes kf_C20 3..6, 8..11, 13..16); each class has a [_refuted] statement, and
    the positive theorems are stated on the complement.
    fixed: property=C20 PENDING collector ExportGenesis emitted zero-valued net-fee records (class 1)
    fixed: property=C20 PENDING auctionsV2 InitGenesis reset the exported auction id and user bid id
@@ -87,8 +87,8 @@ Theorem c20_known_holes_refuted : forallb hole_is_hole known_holes = true.
 Proof. exact holes_are_holes. Qed.
 Print Assumptions c20_known_holes_refuted.
 
-(* classes 3, 6, 8, 11, 15 (and the non-counter prefixes of 14): a live prefix that no genesis field
-   carries comes back empty *)
+(* classes 3, 6, 8, 11, 15, 16 (and the non-counter prefixes of 14): a live prefix that no genesis
+   field carries comes back empty *)
 Theorem c20_lost_refuted : forall p dv,
   In p prefixes -> classify the_table (p_mod p) (p_byte p) = CovLost ->
   exists s, get (roundtrip dv the_table (p_mod p) s) (p_byte p) <> get s (p_byte p).
